@@ -184,7 +184,13 @@ def worker_main(argv):
                     b["reproduced"] = "1/%d with the hook seed varied" % tries
                     break
             else:
-                b["reproduced"] = "0/3 (and 0/80 with the hook seed varied, under load)"
+                nst = stats["outcomes"].get("stuck", 0)
+                if nst >= 3:
+                    # not reproducible on demand, but this worker alone saw the executor go idle with work outstanding on %d separate runs
+                    # (first witness with the full window, the others while shrinking): recurrent, therefore reported
+                    b["reproduced"] = "recurrent: %d stuck runs in this worker, 0/3 + 0/80 on replay" % nst
+                else:
+                    b["reproduced"] = "0/3 (and 0/80 with the hook seed varied, under load)"
             for hp_ in helpers:
                 try:
                     os.killpg(hp_.pid, 9)
@@ -371,6 +377,10 @@ class E3Check:
             if key in seen_sig:
                 continue
             seen_sig.add(key)
+            if v0.get("kind") == "stuck" and b["reproduced"].startswith("0/") and cov["outcomes"].get("stuck", 0) >= 3:
+                # not reproducible on demand, but the executor went idle with work outstanding on several separate runs of this campaign
+                # (full-window witnesses plus the short-window ones seen while shrinking): recurrent, therefore reported
+                b["reproduced"] = "recurrent: %d stuck runs in this campaign; %s on replay" % (cov["outcomes"]["stuck"], b["reproduced"])
             if v0.get("kind") == "stuck" and b["reproduced"].startswith("0/"):
                 rep.notes.append("a stuck witness did not reproduce on replay and is not reported as a violation: " + v0["what"])
                 try:       # kept for triage only (ignored directory, nothing depends on it)
